@@ -34,6 +34,7 @@ type Options struct {
 	Params     map[string]int
 	SolverLog  string
 	Verbose    bool
+	EagerAssume bool
 }
 
 type Harness struct {
